@@ -4,7 +4,10 @@
 
 use super::scheduler::*;
 
+#[cfg(not(desync_verif))]
 use std::sync::{Arc};
+#[cfg(desync_verif)]
+use crate::verif::sync::{Arc};
 use std::marker::{PhantomData};
 use futures::prelude::*;
 use futures::channel::oneshot;
@@ -269,5 +272,15 @@ impl<T: Send> Drop for Desync<T> {
                 mem::drop(unsafe { Box::from_raw(data) });
             });
         }
+    }
+}
+
+#[cfg(desync_verif)]
+impl<T: Send> Desync<T> {
+    ///
+    /// (Verification builds only) the job queue used by this object
+    ///
+    pub fn verif_queue(&self) -> &Arc<JobQueue> {
+        &self.queue
     }
 }
